@@ -674,7 +674,7 @@ Proof.
     + inv_some. apply Inv_set_thread; auto; pc_triv.
   - (* PIdent *)
     destruct (ident_send s c o); inv_some.
-    + apply Inv_set_thread; auto. unfold pc_ok. cbn. exact P.
+    + apply Inv_set_thread; auto; unfold pc_ok; cbn; exact P.
     + destruct P as (x & Hx & Hlx & _).
       apply Inv_set_thread; [eapply Inv_close_refused; eauto; intros e He; rewrite Hlx in He; discriminate| |pc_triv].
       destruct (close_refused_frame s c) as (_&_&_&Hn&_). now rewrite Hn.
@@ -980,6 +980,21 @@ Definition same_conn (x x' : conn) : Prop :=
 Lemma same_conn_refl x : same_conn x x.
 Proof. repeat split; auto. Qed.
 
+Lemma frame_refused s c t th0 :
+  let s' := set_thread (close_refused s c) t th0 in
+  closed s' = closed s /\ listening s' = listening s /\ incn s' = incn s /\ tcp s' = tcp s /\ nh s' = nh s /\
+  calls s' = calls s /\
+  (forall c0 x, conns s c0 = Some x -> exists x', conns s' c0 = Some x' /\ same_conn x x') /\
+  (forall q c0, In c0 (table s q) -> In c0 (table s' q)) /\
+  (forall t0, t0 <> t -> threads s' t0 = threads s t0).
+Proof.
+  destruct (close_refused_frame s c) as (A1&A2&A3&A4&A5&A6&A7&A8&A9&A10&A11&A12).
+  cbn. rewrite A1, A2, A5, A6, A7, A8, A9, A10. repeat split; auto.
+  - intros c0 x Hx. destruct (close_refused_conns s c c0 x Hx) as (x' & B1 & B2 & B3 & B4 & B5 & B6 & B7 & _).
+    exists x'. repeat split; auto.
+  - intros t0 Ht. now rewrite upd_other.
+Qed.
+
 Lemma thread_step_frame s t o s' :
   Inv s -> thread_step s t o = Some s' ->
   closed s' = closed s /\ listening s' = listening s /\ incn s' = incn s /\ tcp s' = tcp s /\ nh s' = nh s /\
@@ -1001,10 +1016,12 @@ Proof.
     intros c x Hx. assert (c <> nextc s).
     { intros ->. rewrite (i_fresh _ I) in Hx by lia. discriminate. }
     rewrite upd_other by auto. apply Same; auto.
-  - destruct (ident_send s c o); inv_some; cbn; repeat split; auto; intros; now rewrite upd_other.
-  - destruct (closed s) eqn:Hcl; inv_some; cbn; repeat split; auto; try (intros; now rewrite upd_other).
+  - destruct (ident_send s c o); inv_some; [cbn; repeat split; auto; intros; now rewrite upd_other|apply frame_refused].
+  - pose proof (frame_refused s c t (set_pc th (PDone RErr))) as FR.
+    destruct (closed s) eqn:Hcl; inv_some; [exact FR|]. cbn; repeat split; auto; try (intros; now rewrite upd_other).
     intros q c0 Hin. upd_cases; auto. apply in_or_app. auto.
-  - destruct (closed s) eqn:Hcl; inv_some; [cbn; repeat split; auto; intros; now rewrite upd_other|].
+  - pose proof (frame_refused s c t (set_pc th (PDone RErr))) as FR.
+    destruct (closed s) eqn:Hcl; inv_some; [exact FR|].
     destruct (conns s c) as [x|] eqn:Hx; [|discriminate]. destruct (loop x); try discriminate.
     destruct (t0 =? t); inv_some. cbn. repeat split; auto; try (intros; now rewrite upd_other).
     intros c0 x0 Hx0. upd_cases.
